@@ -32,7 +32,7 @@ CFG = {
                     "threads whose creation failed are outside the quantifier (no fault injection here)",
                     "the thread unmapping its own stack is the documented design (__clone doc comment); a munmap of a stack by another thread is reported"],
     "required_classes": ["reuse:join-state-reusable-while-the-dropped-thread-is-finishing", "release:spurious-wake-delivered-to-parked-joiner", "spurious:spurious-wake-delivered-to-parked-joiner", "release:return x join", "release:return x drop-now", "release:return x drop-after-delay", "release:return x drop-while-finishing",
-                         "release:panic x join", "release:panic x drop-now", "release:panic x drop-after-delay", "release:panic x drop-while-finishing",
+                         "release:panic x join", "release:panic-with-a-message-that-cannot-be-rendered", "release:panic x drop-now", "release:panic x drop-after-delay", "release:panic x drop-while-finishing",
                          "release:both-flag-outcomes-in-one-batch", "release:panicked-thread-left-its-closure", "release:history-of-3-or-more-batches",
                          "release-strace:strace-log-judged", "release-strace:set_tid_address(0) by the thread that lost the flag race",
                          "release-strace:no set_tid_address for a thread whose handle side frees", "release-strace:stack munmaps == threads created", "fixed:strace-log-judged", "fixed:both-flag-outcomes-in-one-batch",
